@@ -3,6 +3,8 @@
 use crate::types::*;
 
 pub const S_INT: [f64; 5] = [1.0, 0.0, -1.0, 3.0, -2.0];
+/// three levels, for deep sequences (balanced windows: the mean equals the newest value, ...)
+pub const S_NARROW: [f64; 3] = [2.0, 1.0, 3.0];
 pub const S_POS: [f64; 4] = [1.0, 2.0, 4.0, 7.0];
 pub const S_POS5: [f64; 5] = [1.0, 2.0, 4.0, 7.0, 2.5];
 pub const S_ROUGH: [f64; 7] = [0.1, -0.3, 7.7, 1e-3, 16_777_217.0, 1e12, -1e12];
